@@ -370,7 +370,7 @@ func (lr *libRunner) call(fnExpr string, argIdx []int) {
 }
 
 func (lr *libRunner) judge(fnExpr, src string, res result) {
-	c := lr.x.c
+	x, c := lr.x, lr.x.c
 	c.Feature("outcome/"+res.kind, 1)
 	switch res.kind {
 	case kPanic:
@@ -387,8 +387,8 @@ func (lr *libRunner) judge(fnExpr, src string, res result) {
 		}
 	}
 	c.NonTrivial(vp.Hash("stdlib", src))
-	if c.WantSample() && res.kind == kOK && len(src) < 120 && strings.Count(src, ",") >= 1 {
-		c.Sample(map[string]interface{}{"stage": "stdlib", "call": src, "outcome": res.kind, "results": abbreviate(res.rets)})
+	if x.wantSample() && res.kind == kOK && len(src) < 120 && strings.Count(src, ",") >= 1 {
+		x.sample(map[string]interface{}{"stage": "stdlib", "call": src, "outcome": res.kind, "results": abbreviate(res.rets)})
 	}
 }
 
